@@ -21,6 +21,8 @@ enum Plan {
   Delete(String),
   Commit,
   Rollback,
+  /// Index::compact() called from a writer thread between its own calls (no model effect)
+  Compact,
 }
 
 #[derive(Clone, Debug)]
@@ -98,6 +100,11 @@ fn step(s: &MState, t: usize, r: &Rec, ops: &[OpInfo]) -> Option<MState> {
       let q = n.queues[t].as_mut()?;
       q.clear();
       n.log.clear();
+    }
+    Plan::Compact => {
+      if r.result.is_err() {
+        return None;
+      }
     }
   }
   Some(n)
@@ -194,7 +201,7 @@ fn body_of(op: usize) -> String {
 fn main() {
   let args: Vec<String> = std::env::args().skip(1).collect();
   let mut ctx = Ctx::from_args("C05", "exploration", &args);
-  ctx.rule = "each run: 2-4 writer threads (own IndexWriter each, 3-6 calls: open, add/delete over 2-4 ids with unique bodies, commit, rollback) plus an optional compaction thread start from a barrier on one Index (Filesystem or InMemory), with seeded 0-3 ms delays injected at the hook's pause points inside writer-open/add/commit/rollback/compact; calls are stamped at the client boundary from one atomic clock; the final contents are read through a fresh reader and again after Index::open. evaluations = runs decided by the exact serializability search; a run is non-trivial when calls of different threads overlapped in real time; distinct = distinct global (thread,pause point) orders among non-trivial runs.".into();
+  ctx.rule = "each run: 2-4 writer threads (own IndexWriter each; 'mixed' profile 3-6 calls: open, add/delete over 2-4 ids with unique bodies, commit, rollback; 'churn' profile 45% of runs: 2-3 long-lived handles running 3-5 episodes of add+commit+delete-same-id+commit / compact() / touch-an-older-id+commit) plus an optional compaction thread start from a barrier on one Index (Filesystem or InMemory), with seeded 0-3 ms delays injected at the hook's pause points inside writer-open/add/commit/rollback/compact; calls are stamped at the client boundary from one atomic clock; the final contents are read through a fresh reader and again after Index::open. evaluations = runs decided by the exact serializability search; a run is non-trivial when calls of different threads overlapped in real time; distinct = distinct global (thread,pause point) orders among non-trivial runs.".into();
   ctx.assumptions = vec![
     "sequential specification = the C04 content/queue model (a handle inherits the uncommitted shared log; rollback clears the shared log)".into(),
     "storage is healthy; every call is expected to return Ok".into(),
@@ -245,29 +252,61 @@ fn main() {
         init.committed.insert(id, op);
       }
     }
-    let k = rng.urange(2, 4);
+    // Two workload profiles. "mixed": short random call sequences. "churn": longer-lived handles that
+    // add and then delete the same document in separate commits (leaving fully dead segments),
+    // call compact() in between, and afterwards touch documents that existed before.
+    let churn = rng.chance(0.45);
+    let k = if churn { rng.urange(2, 3) } else { rng.urange(2, 4) };
     init.queues = vec![None; k];
     // plans
     let mut plans: Vec<Vec<(Plan, Option<usize>)>> = Vec::new();
     for _t in 0..k {
       let mut p = vec![(Plan::Open, None)];
-      let m = rng.urange(2, 5);
-      for i in 0..m {
-        let r = rng.f64();
-        if r < 0.45 {
-          let id = format!("d{}", rng.usize(n_ids));
-          let op = ops.len();
-          ops.push(OpInfo { doc: id.clone(), is_add: true });
-          p.push((Plan::Add(id), Some(op)));
-        } else if r < 0.62 {
-          let id = format!("d{}", rng.usize(n_ids));
-          let op = ops.len();
-          ops.push(OpInfo { doc: id.clone(), is_add: false });
-          p.push((Plan::Delete(id), Some(op)));
-        } else if r < 0.9 || i == m - 1 {
-          p.push((Plan::Commit, None));
-        } else {
-          p.push((Plan::Rollback, None));
+      if churn {
+        let episodes = rng.urange(3, 5);
+        for _ in 0..episodes {
+          let r = rng.f64();
+          if r < 0.4 {
+            // add then delete the same id, each in its own commit
+            let id = format!("d{}", rng.usize(n_ids + 1));
+            let op = ops.len();
+            ops.push(OpInfo { doc: id.clone(), is_add: true });
+            p.push((Plan::Add(id.clone()), Some(op)));
+            p.push((Plan::Commit, None));
+            let op = ops.len();
+            ops.push(OpInfo { doc: id.clone(), is_add: false });
+            p.push((Plan::Delete(id), Some(op)));
+            p.push((Plan::Commit, None));
+          } else if r < 0.65 {
+            p.push((Plan::Compact, None));
+          } else {
+            let id = format!("d{}", rng.usize(n_ids));
+            let op = ops.len();
+            let is_add = rng.chance(0.5);
+            ops.push(OpInfo { doc: id.clone(), is_add });
+            p.push((if is_add { Plan::Add(id) } else { Plan::Delete(id) }, Some(op)));
+            p.push((Plan::Commit, None));
+          }
+        }
+      } else {
+        let m = rng.urange(2, 5);
+        for i in 0..m {
+          let r = rng.f64();
+          if r < 0.45 {
+            let id = format!("d{}", rng.usize(n_ids));
+            let op = ops.len();
+            ops.push(OpInfo { doc: id.clone(), is_add: true });
+            p.push((Plan::Add(id), Some(op)));
+          } else if r < 0.62 {
+            let id = format!("d{}", rng.usize(n_ids));
+            let op = ops.len();
+            ops.push(OpInfo { doc: id.clone(), is_add: false });
+            p.push((Plan::Delete(id), Some(op)));
+          } else if r < 0.9 || i == m - 1 {
+            p.push((Plan::Commit, None));
+          } else {
+            p.push((Plan::Rollback, None));
+          }
         }
       }
       plans.push(p);
@@ -312,6 +351,7 @@ fn main() {
                 Plan::Delete(id) => writer.as_mut().map(|w| w.delete_document(id).map(|_| None).map_err(|e| format!("{e:#}"))).unwrap_or(Err("no writer".into())),
                 Plan::Commit => writer.as_mut().map(|w| w.commit().map(|_| None).map_err(|e| format!("{e:#}"))).unwrap_or(Err("no writer".into())),
                 Plan::Rollback => writer.as_mut().map(|w| w.rollback().map(|_| None).map_err(|e| format!("{e:#}"))).unwrap_or(Err("no writer".into())),
+                Plan::Compact => index.compact().map(|_| None).map_err(|e| format!("{e:#}")),
               };
               let ret = clock.fetch_add(1, Ordering::SeqCst);
               recs.push(Rec { plan: p.clone(), op_id: *op, inv, ret, result });
@@ -360,7 +400,7 @@ fn main() {
         .map(|(t, rs)| json!({"thread": t, "calls": rs.iter().map(|r| json!({"call": format!("{:?}", r.plan), "op": r.op_id, "inv": r.inv, "ret": r.ret, "result": format!("{:?}", r.result)})).collect::<Vec<_>>()}))
         .collect::<Vec<_>>())
     };
-    let case = |extra: Value| json!({"storage": if in_mem {"InMemory"} else {"Filesystem"}, "initial": init.committed, "history": hist_json(&hist), "compactor": with_compactor, "extra": extra});
+    let case = |extra: Value| json!({"storage": if in_mem {"InMemory"} else {"Filesystem"}, "initial": init.committed, "history": hist_json(&hist), "compactor": with_compactor, "profile": if churn {"churn"} else {"mixed"}, "extra": extra});
     for p in panics.lock().unwrap().iter() {
       l.fail(format!("panic:{}", vcore::ctx::panic_site(p)), format!("a thread panicked: {p}"), case(json!(null)));
     }
@@ -447,6 +487,10 @@ fn main() {
     }
     if with_compactor {
       l.count("runs_with_compactor", 1);
+    }
+    if churn {
+      l.count("runs_with_churn_profile", 1);
+      l.count("compact_calls_inside_writer_threads", hist.iter().flatten().filter(|r| matches!(r.plan, Plan::Compact)).count() as u64);
     }
     if l.samples.is_empty() {
       l.sample(json!({"storage": if in_mem {"InMemory"} else {"Filesystem"}, "threads": k, "compactor": with_compactor, "history": hist_json(&hist), "final": obs,
